@@ -28,6 +28,8 @@ def templates(r, out):
         ("part_vars", {"part_vars": allp[:2]} if allp else {}),
         ("level_cap", {"preds": [{"var": "level", "op": "le", "value": max(1, out["levelmax"] - 1)}]}),
         ("value_pred", {"preds": [{"var": "density", "op": "gt", "value": Fraction(40) * out["unit_d"]}]}),
+        # a selection that no cell satisfies: the call produces an empty mesh group, which replaces the one of an earlier call
+        ("value_pred_none", {"preds": [{"var": "density", "op": "gt", "value": Fraction(10 ** 9) * out["unit_d"]}]}),
         ("cpu_list", {"cpu_list": sorted(r.sample(range(1, out["ncpu"] + 1), max(1, out["ncpu"] // 2)))}),
         ("sortby", {"sortby": {"part": "identity"}} if ("identity" in allp) else {}),
         ("grouplist_part", {"form": "grouplist", "mesh_on": False, "part_on": True, "sink_on": False}),
@@ -76,7 +78,7 @@ def run(ctx):
                                              ("cpu_list", "no_mesh"), ("value_pred", "no_part"), ("mesh_vars", "full"), ("box", "full"),
                                              ("sortby_sink", "full"), ("sortby_sink", "only_sink"), ("sortby", "full"),
                                              ("level_cap", "grouplist_mesh"), ("box", "grouplist_mesh_part"), ("cpu_list", "grouplist_mesh"),
-                                             ("mesh_vars", "grouplist_mesh"))]
+                                             ("mesh_vars", "grouplist_mesh"), ("full", "value_pred_none"), ("box", "value_pred_none"))]
         if ctx.tier == "quick":
             hists = must + [[a, b] for a in r.sample(tmpl, 5) for b in r.sample(tmpl, 3)]
         else:
@@ -151,6 +153,14 @@ def run(ctx):
                             v = f"groups {extra_g} present after {k} although no call produced them"
                     # counts in the metadata match the groups the *last* call loaded
                     last = fresh(hist[-1][0], hist[-1][1])["groups"]
+                    lastq = hist[-1][1]
+                    if not v and lastq.get("mesh_on", True) and "mesh" not in last:
+                        # the last call was asked for the mesh and found no cell: the dataset must not go on showing the cells of
+                        # an earlier call while the metadata says that none was loaded
+                        rows = rows_of(groups["mesh"]) if "mesh" in groups else 0
+                        if int(meta["ncells"]) != rows:
+                            v = (f"meta ncells {meta['ncells']} after {k}, but the dataset shows a mesh group of {rows} rows "
+                                 "(the last call was asked for the mesh)")
                     if not v and "mesh" in last and int(meta["ncells"]) != rows_of(groups["mesh"]):
                         v = f"meta ncells {meta['ncells']} but the mesh group just loaded has {rows_of(groups['mesh'])} rows"
                     if not v and "part" in last and int(meta["nparticles"]) != rows_of(groups["part"]):
